@@ -123,9 +123,9 @@ type fakeIDP struct {
 	claimOverride         map[string]interface{}
 	profile               map[string]interface{} // userinfo endpoint JSON
 	// fault hook: return true when the hook answered the request itself
-	fault           func(endpoint string, n int, w http.ResponseWriter, r *http.Request) bool
+	fault func(endpoint string, n int, w http.ResponseWriter, r *http.Request) bool
 	// transform hook: the endpoint's real answer is produced first, then its body is rewritten (truncation / byte-flip sweeps)
-	transform func(endpoint string, status int, body []byte) []byte
+	transform       func(endpoint string, status int, body []byte) []byte
 	epCount         map[string]int
 	pkceFailures    []string
 	rawNonceFor     func(hashed string) string
@@ -136,13 +136,13 @@ type fakeIDP struct {
 	// accessJWT: "" = opaque access tokens; otherwise access tokens are JWTs (Keycloak style, realm roles):
 	// "good", "garbage" (not a JWT), "other-key" (signed by another key), "roles-wrong-type", "aud-other"
 	accessJWT        string
-	advertisedPKCE   []string // nil = ["S256","plain"]
-	forceIDToken     string   // when set, the code grant answers with exactly this raw id_token (replay of an earlier login's token)
-	lastIDToken      string   // the raw id_token of the most recent code grant
-	accessJWTRefresh string // same, for the access token returned by the refresh grant ("" = follow accessJWT)
-	refreshNonce    string // nonce claim to put into refreshed ID tokens of sessions the harness crafted itself
-	ownKey *rsa.PrivateKey // when set: this IdP's signing key (instead of the shared main key)
-	mint   func(claims map[string]interface{}) string // when set: produces the ID token from the final claim set
+	advertisedPKCE   []string                                   // nil = ["S256","plain"]
+	forceIDToken     string                                     // when set, the code grant answers with exactly this raw id_token (replay of an earlier login's token)
+	lastIDToken      string                                     // the raw id_token of the most recent code grant
+	accessJWTRefresh string                                     // same, for the access token returned by the refresh grant ("" = follow accessJWT)
+	refreshNonce     string                                     // nonce claim to put into refreshed ID tokens of sessions the harness crafted itself
+	ownKey           *rsa.PrivateKey                            // when set: this IdP's signing key (instead of the shared main key)
+	mint             func(claims map[string]interface{}) string // when set: produces the ID token from the final claim set
 }
 
 // signingKey is the key this IdP publishes and signs with
